@@ -241,6 +241,12 @@ def scalar_binop(op, a, b, wf=True):
             for _ in range(b):
                 r = r * x
             return r
+        if isinstance(b, float) and b == 0.5:
+            # x ** 0.5 = sqrt(x): the uninterpreted square root, positive on positive arguments (ground instance)
+            xr = zreal(x)
+            r = UF["sqrt"](xr)
+            cur().assume(z3.Implies(xr > 0, r > 0))
+            return r
         raise Unsupported("pow with non-small exponent")
     if op == "lt":
         return x < y
